@@ -10,7 +10,7 @@ trap 'git -C /repo checkout -- . ; git -C /repo clean -fdq -e target' EXIT
 cd /verif
 rc_all=0
 for id in "$@"; do
-  out=$(./check "$id" ${CHECK_ARGS:-} 2>&1); rc=$?
+  out=$(timeout 600 ./check "$id" ${CHECK_ARGS:-} 2>&1); rc=$?
   echo "== $id rc=$rc"; echo "$out" | grep -E "^(VIOLATION|  signature|KNOWN|INCONCLUSIVE|OK|SUMMARY)" | head -8
   [ $rc -eq 1 ] || rc_all=1
 done
